@@ -178,8 +178,23 @@ impl RtpsWriterProxy {
         // FIND change FROM this.changes_from_writer SUCH-THAT
         // (change.sequenceNumber == a_seq_num);
         // change.status := RECEIVED; change.is_relevant := FALSE;
-        if a_seq_num > self.highest_received_change_sn {
-            self.highest_received_change_sn = a_seq_num;
+        self.irrelevant_change_range(a_seq_num, a_seq_num);
+    }
+
+    /// Marks the changes `first_seq_num..=last_seq_num` as irrelevant. The proxy only keeps the
+    /// highest sequence number up to which every change is accounted for, so the range is only
+    /// taken when it is contiguous with that number: skipping further ahead would hide changes
+    /// that are still missing. A range that is ignored here is announced again by the writer when
+    /// the reader requests its sequence numbers.
+    pub fn irrelevant_change_range(
+        &mut self,
+        first_seq_num: SequenceNumber,
+        last_seq_num: SequenceNumber,
+    ) {
+        if first_seq_num <= self.available_changes_max().saturating_add(1)
+            && last_seq_num > self.highest_received_change_sn
+        {
+            self.highest_received_change_sn = last_seq_num;
         }
     }
 
